@@ -1,16 +1,19 @@
 (* C01 — serialise-then-parse round trip preserves every value and its type. *)
-From Anytype Require Import Base FloatBits Value Equality GoInt Utf8 Json JsonDoc SerializeProofs ParserBasics ParserCorrect RoundTrip.
+From Anytype Require Import Base FloatBits Value Equality GoInt Utf8 Json JsonDoc SerializeProofs ParserBasics ParserCorrect RoundTrip FloatText.
 Local Open Scope Z_scope.
 
 Section C01.
   (* strconv.FormatFloat / ParseFloat are oracles with the contract below (re-validated against Go on every float of every run):
-     F2 the text of a finite float has the shape of a JSON number, F1 it parses back to the same float64, F4 it is not an integer
-     literal (it contains a fraction or an exponent — this is what the ".0" repair guarantees), F3 true/false are not floats *)
+     F2 the text of a finite float has the shape of a JSON number, F1 it parses back to the same float64, F3 true/false are not
+     floats, F5 the 'e' format (used for magnitudes >= 1e6 or <= 1e-6) contains the letter 'e' or a '.'.
+     That the text of a float is never an integer literal (what the ".0" repair is for) is no longer assumed: it is the theorem
+     FloatText.ser_float_not_int, derived from F2, F5 and the model of atFloat.serialize itself *)
   Variable fmt_e fmt_f : Z -> bytes.
   Variable pfloat : bytes -> option Z.
   Hypothesis F2 : forall b, is_finite b = true -> fbits_ok b = true -> exists n, parse_num_text (ser_float fmt_e fmt_f b) = Some n.
   Hypothesis F1 : forall b, is_finite b = true -> fbits_ok b = true -> pfloat (ser_float fmt_e fmt_f b) = Some b.
-  Hypothesis F4 : forall b, is_finite b = true -> fbits_ok b = true -> pint0 (ser_float fmt_e fmt_f b) = None.
+  Hypothesis F5 : forall b, is_finite b = true -> fbits_ok b = true -> In x65 (fmt_e b) \/ In x2e (fmt_e b).
+  Let F4 : forall b, is_finite b = true -> fbits_ok b = true -> pint0 (ser_float fmt_e fmt_f b) = None := ser_float_not_int fmt_e fmt_f F2 F5.
   Hypothesis F3 : pfloat (B"true") = None /\ pfloat (B"false") = None.
   Notation ser := (ser fmt_e fmt_f).
 
@@ -37,6 +40,8 @@ Section C01.
   Theorem C01_reparse_object : forall kvs, val_ok (VObj kvs) = true ->
     exists v' line line2, parse_object_top pfloat (ser (VObj kvs)) = POk v' [] line /\ parse_object_top pfloat (ser v') = POk v' [] line2.
   Proof. exact (reparse_object fmt_e fmt_f pfloat F2 F1 F4 F3). Qed.
+  Theorem C01_float_text_is_not_an_integer_literal : forall b, is_finite b = true -> fbits_ok b = true -> pint0 (ser_float fmt_e fmt_f b) = None.
+  Proof. exact F4. Qed.
 End C01.
 
 Example C01_nonvacuous :
@@ -45,7 +50,7 @@ Example C01_nonvacuous :
   val_ok (VList [VFloat fone; VFloat nzero; VStr [xef; xbf; xbd; x01; x22; x5c; xf0; x9f; x98; x80];
                  VObj [([], VList [VObj [(B"k", VInt (-9223372036854775808))]])]; VNil; VBool true]) = true.
 Proof. vm_compute. reflexivity. Qed.
-(* regression (D1): without the ".0" a whole float's text is an integer literal and the contract clause F4 is violated *)
+(* regression (D1): without the ".0" a whole float's text is an integer literal *)
 Example C01_without_fraction_refuted : pint0 (B"1") = Some 1 /\ pint0 (B"-0") = Some 0 /\ pint0 (B"1.0") = None /\ pint0 (B"-0.0") = None.
 Proof. vm_compute. repeat split; reflexivity. Qed.
 
@@ -55,3 +60,4 @@ Print Assumptions C01_equals_list.
 Print Assumptions C01_equals_object.
 Print Assumptions C01_reparse_list.
 Print Assumptions C01_reparse_object.
+Print Assumptions C01_float_text_is_not_an_integer_literal.
